@@ -29,10 +29,6 @@ def run(ctx):
         ctx.guard("C03", "addassign", lambda: engine.add_assign_forms(ctx, prog))
         ctx.guard("C03", "delegate", lambda: gen.finalizers_delegate(ctx, prog))
         ctx.guard("C03", "declared", lambda: gen.ok_effects_set_fixed(ctx, prog))
-        ctx.guard("C03", "summaries", lambda: summary.check(ctx, prog, 'Generator::(input_size|new)$|<internals::generate::Generator as core::(default::Default|ops::AddAssign)|generate_easy', floor=2))
-        ctx.guard("C03", "path summaries", lambda: summary.check_paths(ctx, prog, 'Generator::(input_size|new)$|<internals::generate::Generator as core::(default::Default|ops::AddAssign)|generate_easy', floor=0))
-        if c in ("dbg", "unsafe_dbg", "strict_dbg"):
-            ctx.guard("C03", "beliefs", lambda: beliefs.census(ctx, prog, beliefs.SCOPES["C03"][0], floor=beliefs.SCOPES["C03"][1]))
         ctx.guard("C03", "traits", lambda: vis.trait_census(ctx, prog, scope='for internals::generate::Generator$'))
         if c.startswith("unsafe"):
             ctx.guard("C03", "mirror", lambda: engine.mirror(ctx, prog))
@@ -41,6 +37,10 @@ def run(ctx):
         if c != "nodef":
             ctx.guard("C03", "buf", lambda: errflow.buf(ctx, prog))
             ctx.guard("C03", "stream", lambda: errflow.stream_common(ctx, prog))
+        ctx.guard("C03", "summaries", lambda: summary.check(ctx, prog, 'Generator::(input_size|new)$|<internals::generate::Generator as core::(default::Default|ops::AddAssign)|generate_easy', floor=2))
+        ctx.guard("C03", "path summaries", lambda: summary.check_paths(ctx, prog, 'Generator::(input_size|new)$|<internals::generate::Generator as core::(default::Default|ops::AddAssign)|generate_easy', floor=0))
+        if c in ("dbg", "unsafe_dbg", "strict_dbg"):
+            ctx.guard("C03", "beliefs", lambda: beliefs.census(ctx, prog, beliefs.SCOPES["C03"][0], floor=beliefs.SCOPES["C03"][1]))
     if ctx.tier == "thorough":
         ctx.cfg = "witness"
         ctx.guard("C03", "witness", lambda: witness.run(ctx, "witness", ["W5"]))
